@@ -108,6 +108,15 @@ def configs(draw, max_bits=24, kinds=KINDS):
                 kind = 'llvar_text'
             have_43 = True
         cfg[str(b)] = field_config(kind, draw)
+    # a configuration is a mapping: the order in which it lists the elements carries no meaning (a JSON file written
+    # with sorted keys lists "123" before "48")
+    order = draw(st.sampled_from(['ascending', 'ascending', 'as-strings', 'descending', 'shuffled']))
+    if order == 'as-strings':
+        cfg = {k: cfg[k] for k in sorted(cfg)}
+    elif order == 'descending':
+        cfg = {k: cfg[k] for k in reversed(list(cfg))}
+    elif order == 'shuffled':
+        cfg = {k: cfg[k] for k in draw(st.permutations(list(cfg)))}
     return cfg
 
 
